@@ -213,8 +213,19 @@ class Ctx:
             elif isinstance(b, HSet):
                 c.s = set(b.s)
             self.local[ref.id] = c
-        if self.entry_id is not None and ref.id < self.entry_id:
-            self.writes[(ref.id, field)] = True
+        if self.entry_id is not None and ref.id < self.entry_id and (ref.id, field) not in self.writes:
+            # remember the entry value of the location (frame conditions ignore writes that restore it)
+            if isinstance(c, HObj):
+                old = c.fields.get(field, _NOFIELD)
+            elif isinstance(c, HList):
+                old = (list(c.items) if c.items is not None else None, c.seq)
+            elif isinstance(c, HDict):
+                old = dict(c.d)
+            elif isinstance(c, HSet):
+                old = set(c.s)
+            else:
+                old = None
+            self.writes[(ref.id, field)] = old
         return c
 
     def new_list(self, items):
@@ -1244,6 +1255,9 @@ class Ctx:
 
     def compare(self, op, a, b):
         return ops.compare(self, op, a, b)
+
+
+_NOFIELD = object()
 
 
 class SliceV:
